@@ -204,3 +204,27 @@ func firstWord(s string) string {
 	}
 	return s
 }
+
+// genFailingTx: a send that passes the stateless and fee checks but cannot be paid in full, with the
+// highest fee in the pool so that the mempool executes it before everything already pooled.
+func (w *world) genFailingTx(n *node) *genTx {
+	c := w.c
+	w.focus(n)
+	sm := n.ctl.FSM
+	from, to := w.pickActor(func(a *actor) bool { return a.kind != "bls" }), w.pickActor(nil)
+	acc, err := sm.GetAccount(crypto.NewAddressFromBytes(from.addr))
+	if err != nil || acc == nil || acc.Amount < 300_000 {
+		return nil
+	}
+	fee := uint64(200_000)
+	tx, e := fsm.NewSendTransaction(from.key, crypto.NewAddressFromBytes(to.addr), acc.Amount-fee+1+uint64(c.T.Intn(1000)), 1, 1, fee, sm.Height(), "")
+	if e != nil {
+		return nil
+	}
+	bz, e := lib.Marshal(tx)
+	if e != nil {
+		return nil
+	}
+	c.Fault("failing_tx_with_top_fee_last")
+	return &genTx{bz: bz, tx: tx.(*lib.Transaction), desc: fmt.Sprintf("send-overdraft %s->%s fee=%d", from.name, to.name, fee), from: from}
+}
